@@ -160,16 +160,56 @@ theorem contract_of_prims {R : RS σ ω → RS σ ω → Prop} (hpre : PreOrd R)
       · exact Rel.pure hpre _
     · intro _; exact hconds _ _
 
+/-- `f` touches neither the step time, the listeners nor the event queues -/
+def QFrameFn (f : IState σ → IState σ) : Prop :=
+  ∀ st, (f st).time = st.time ∧ (f st).listeners = st.listeners ∧ (f st).intQ = st.intQ ∧ (f st).extQ = st.extQ
+
+/-- the finer interface: the two places where the interpreter itself touches its queues
+    (`_raise_event` of an internal event, `_select_event(consume=True)`) are primitive steps of
+    their own, and every other assignment provably leaves the queues alone -/
+structure RespectsQ (R : RS σ ω → RS σ ω → Prop) : Prop where
+  pre : PreOrd R
+  modify : ∀ f : IState σ → IState σ, QFrameFn f → Rel R (M.modify f : M σ ω Unit)
+  emit : ∀ e : Effect, e.isPlain = true → Rel R (M.emit e : M σ ω Unit)
+  raise : ∀ m : Event, Rel R (raiseMeta env m)
+  contract : ∀ (kind : CondKind) (obj : Obj) (ev : Option Event), Rel R (evalContract env kind obj ev)
+  /-- queueing an event on this interpreter -/
+  queue : ∀ (i : Bool) (e : Event), Rel R (queueEvent (σ := σ) (ω := ω) i e)
+  /-- consuming the selected event and announcing it -/
+  consume : Rel R (M.bind (M.get : M σ ω (IState σ)) (fun st =>
+    M.bind (M.modify (fun st' => (popEvent st').2)) (fun _ =>
+      raiseMeta env { name := "event consumed", data := [("event", optEventVal (popEvent st).1)] })))
+
+theorem queueEvent_frame (i : Bool) (e : Event) :
+    FrameFn (fun (st : IState σ) =>
+      let due := st.time + e.delay
+      if i then { st with intQ := queueInsert due e st.intQ }
+      else { st with extQ := queueInsert due e st.extQ }) := by
+  intro st
+  simp only
+  split <;> exact ⟨rfl, rfl⟩
+
+/-- a relation indifferent to the queues respects the finer interface too -/
+theorem Respects.toQ {R : RS σ ω → RS σ ω → Prop} (H : Respects env R) : RespectsQ env R where
+  pre := H.pre
+  modify f hf := H.modify f (fun st => ⟨(hf st).1, (hf st).2.1⟩)
+  emit := H.emit
+  raise := H.raise
+  contract := H.contract
+  queue i e := by
+    unfold queueEvent
+    exact H.modify _ (queueEvent_frame i e)
+  consume := by
+    apply Rel.bind H.pre (Rel.get H.pre); intro st
+    apply Rel.bind H.pre (by apply H.modify; intro st'; exact ⟨(popEvent_frame st').1, (popEvent_frame st').2.1⟩)
+    intro _; exact H.raise _
+
 section Generic
 variable {env}
-variable {R : RS σ ω → RS σ ω → Prop} (H : Respects env R)
+variable {R : RS σ ω → RS σ ω → Prop} (H : RespectsQ env R)
 include H
 
-theorem rel_queueEvent (i : Bool) (e : Event) : Rel R (queueEvent (σ := σ) (ω := ω) i e) := by
-  unfold queueEvent
-  apply H.modify
-  intro st
-  split <;> exact ⟨rfl, rfl⟩
+theorem rel_queueEvent (i : Bool) (e : Event) : Rel R (queueEvent (σ := σ) (ω := ω) i e) := H.queue i e
 
 theorem rel_raiseSent (s : Sent) : Rel R (raiseSent env s) := by
   cases s with
@@ -199,7 +239,7 @@ theorem rel_stateObjs : ∀ ns : List Name, Rel R (stateObjs env ns)
 theorem rel_runCode (k : ExecKind) (ev : Option Event) : Rel R (runCode env k ev) := by
   unfold runCode
   apply Rel.bind H.pre (Rel.get H.pre); intro st
-  apply Rel.bind H.pre (by apply H.modify; intro st; exact ⟨rfl, rfl⟩); intro _
+  apply Rel.bind H.pre (by apply H.modify; intro st; exact ⟨rfl, rfl, rfl, rfl⟩); intro _
   split
   · exact Rel.pure H.pre _
   · exact Rel.throw H.pre _
@@ -211,7 +251,7 @@ theorem rel_saveMemory (cfg0 : List Name) (s : StateDef) : ∀ chs : List Name, 
     split
     · exact Rel.throw H.pre _
     · exact rel_saveMemory cfg0 s rest
-    · apply Rel.bind H.pre (by apply H.modify; intro st; exact ⟨rfl, rfl⟩)
+    · apply Rel.bind H.pre (by apply H.modify; intro st; exact ⟨rfl, rfl, rfl, rfl⟩)
       intro _; exact rel_saveMemory cfg0 s rest
 
 theorem rel_exitState (cfg0 : List Name) (step : Micro) (s : StateDef) : Rel R (exitState env cfg0 step s) := by
@@ -229,7 +269,7 @@ theorem rel_exitState (cfg0 : List Name) (step : Micro) (s : StateDef) : Rel R (
     · exact Rel.throw H.pre _
     · exact Rel.pure H.pre _
   intro _
-  apply Rel.bind H.pre (by apply H.modify; intro st; exact ⟨rfl, rfl⟩); intro _
+  apply Rel.bind H.pre (by apply H.modify; intro st; exact ⟨rfl, rfl, rfl, rfl⟩); intro _
   apply Rel.bind H.pre (H.contract _ _ _); intro _
   apply Rel.bind H.pre (H.raise _); intro _
   exact Rel.pure H.pre _
@@ -239,7 +279,7 @@ theorem rel_enterState (step : Micro) (s : StateDef) : Rel R (enterState env ste
   apply Rel.bind H.pre (H.contract _ _ _); intro _
   apply Rel.bind H.pre (H.emit _ rfl); intro _
   apply Rel.bind H.pre (rel_runCode H _ _); intro sent
-  apply Rel.bind H.pre (by apply H.modify; intro st; exact ⟨rfl, rfl⟩); intro _
+  apply Rel.bind H.pre (by apply H.modify; intro st; exact ⟨rfl, rfl, rfl, rfl⟩); intro _
   apply Rel.bind H.pre (H.raise _); intro _
   exact Rel.pure H.pre _
 
@@ -251,7 +291,7 @@ theorem rel_fireTransition (step : Micro) (t : Trans) : Rel R (fireTransition en
   apply Rel.bind H.pre (rel_runCode H _ _); intro sent
   apply Rel.bind H.pre (H.contract _ _ _); intro _
   apply Rel.bind H.pre (H.contract _ _ _); intro _
-  apply Rel.bind H.pre (by apply H.modify; intro st; exact ⟨rfl, rfl⟩); intro _
+  apply Rel.bind H.pre (by apply H.modify; intro st; exact ⟨rfl, rfl, rfl, rfl⟩); intro _
   apply Rel.bind H.pre (H.raise _); intro _
   exact Rel.pure H.pre _
 
@@ -269,7 +309,7 @@ theorem rel_raiseAll (sent : List Sent) : Rel R (raiseAll env sent) := by
   apply Rel.forEach H.pre
   intro ev
   apply Rel.bind H.pre (rel_raiseSent H ev); intro _
-  (apply H.modify; intro st; exact ⟨rfl, rfl⟩)
+  (apply H.modify; intro st; exact ⟨rfl, rfl, rfl, rfl⟩)
 
 theorem rel_applyStep (step : Micro) : Rel R (applyStep env step) := by
   unfold applyStep
@@ -319,7 +359,7 @@ theorem rel_computeSteps : Rel R (computeSteps env) := by
   unfold computeSteps
   apply Rel.bind H.pre (Rel.get H.pre); intro st
   split
-  · apply Rel.bind H.pre (by apply H.modify; intro st; exact ⟨rfl, rfl⟩)
+  · apply Rel.bind H.pre (by apply H.modify; intro st; exact ⟨rfl, rfl, rfl, rfl⟩)
     intro _; exact Rel.pure H.pre _
   · simp only
     apply Rel.bind H.pre (rel_logGuards H _ _ _); intro _
@@ -350,9 +390,7 @@ theorem rel_runSteps (computed : List Micro) : Rel R (runSteps env computed) := 
   · exact Rel.pure H.pre _
   · apply Rel.bind H.pre
     · split
-      · apply Rel.bind H.pre (Rel.get H.pre); intro st
-        apply Rel.bind H.pre (by apply H.modify; intro st'; exact ⟨(popEvent_frame st').1, (popEvent_frame st').2.1⟩)
-        intro _; exact H.raise _
+      · exact H.consume
       · exact Rel.pure H.pre _
     intro _
     apply Rel.bind H.pre (rel_applyAll H _); intro executed
@@ -380,10 +418,10 @@ theorem RT_respects : Respects env (RT : RS σ ω → RS σ ω → Prop) where
   raise m := rt_raiseMeta env m
   contract := contract_of_prims env RT_pre (fun f hf => rt_modify f hf) (fun _ _ _ _ _ => rt_emit _)
 
-theorem rt_computeSteps : Rel RT (computeSteps env) := rel_computeSteps (RT_respects env)
-theorem rt_runSteps (computed : List Micro) : Rel RT (runSteps env computed) := rel_runSteps (RT_respects env) computed
-theorem rt_finishStep (ms : Option MacroStep) : Rel RT (finishStep env ms) := rel_finishStep (RT_respects env) ms
-theorem rt_applyStep (step : Micro) : Rel RT (applyStep env step) := rel_applyStep (RT_respects env) step
+theorem rt_computeSteps : Rel RT (computeSteps env) := rel_computeSteps (RT_respects env).toQ
+theorem rt_runSteps (computed : List Micro) : Rel RT (runSteps env computed) := rel_runSteps (RT_respects env).toQ computed
+theorem rt_finishStep (ms : Option MacroStep) : Rel RT (finishStep env ms) := rel_finishStep (RT_respects env).toQ ms
+theorem rt_applyStep (step : Micro) : Rel RT (applyStep env step) := rel_applyStep (RT_respects env).toQ step
 
 /-- **The step time is the clock value sampled at the call, whatever happens** (normal return or
     exception), and the effect log is only extended. -/
@@ -392,7 +430,7 @@ theorem executeOnce_time (clock : Int) (rs : RS σ ω) :
     (executeOnce env clock rs).2.st.listeners = rs.st.listeners ∧
     ∃ l, (executeOnce env clock rs).2.eff = rs.eff ++ l := by
   unfold executeOnce
-  have key := rel_executeOnce_tail (RT_respects env) clock { rs with st := { rs.st with time := clock, sentEvents := [] } }
+  have key := rel_executeOnce_tail (RT_respects env).toQ clock { rs with st := { rs.st with time := clock, sentEvents := [] } }
   simp only [M.bind, M.modify] at key ⊢
   exact key
 
